@@ -66,6 +66,7 @@ pub fn configs(tier: Tier, judge: u32, liveness: bool) -> Vec<OutCfg> {
                             peer: PeerMode::Correct,
                             judge,
                             prologue: 0,
+                            peer_max_packet: 0,
                         });
                     }
                 }
@@ -110,7 +111,11 @@ pub fn run_c13(tier: Tier) -> i32 {
 
 /// Re-execute one schedule of one configuration and print the annotated trace.
 pub fn trace(prop: &str, tier: Tier, idx: usize, choices: &[u16], script: Option<Vec<String>>, max_polls: u64) -> crate::simnet::ExecRecord {
-    let cfgs = if prop == "C13" { configs(tier, J_LIVENESS, true) } else { configs(tier, J_WINDOW, false) };
+    let cfgs = match prop {
+        "C13" => configs(tier, J_LIVENESS, true),
+        "C06" | "C14" => crate::c06::trace_cfgs(prop, tier),
+        _ => configs(tier, J_WINDOW, false),
+    };
     let c = &cfgs[idx];
     println!("config #{idx}: {} cap={} senders={:?} cancels={} batch={} bp={}", c.ep.label(), c.cap, c.senders, c.cancels, c.batch, c.bp);
     match script {
